@@ -6,6 +6,11 @@
 //               "wd:<hex> file:<hex> <items...> file:<hex> ..." consumed by the Lean driver (Drv/C17Load.lean)
 //   c17load     runs ManifestLoader::load() in a forked child (stack overflow / hang = a result line
 //               "CRASH sig=<n>") and prints the loaded manifest canonically (same format as the driver)
+//   c17parse    case line = <hex of manifest bytes>: runs Parser on an exact-size heap copy (no terminator, so that a
+//               sanitizer build sees any over-read) with a ParseActions that prints EVERY callback in order with its
+//               token payloads (kind/offset/length/line/column) and the error message text:
+//               "ok <item> <item> ..." - the same text as the Lean driver mode `c17parse` (Drv/C17Parse.lean).
+//               One flushed line per case, alarm(20) per case: a crash / hang is attributed by the caller.
 #include "vcommon.h"
 
 #include "llbuild/Basic/LLVM.h"
@@ -188,6 +193,69 @@ std::string loadCanonical(const Case& c) {
   return out;
 }
 
+// ---------------------------------------------------------------------------------------------
+// full callback trace (parser correspondence)
+// ---------------------------------------------------------------------------------------------
+class TraceActions : public ninja::ParseActions {
+  std::string& out;
+  const char* base;
+  int dummy = 0;
+  std::string T(const ninja::Token& t) {
+    return std::string(t.getKindName()) + "/" + std::to_string((long)(t.start - base)) + "/" + std::to_string(t.length) + "/" +
+           std::to_string(t.line) + "/" + std::to_string(t.column);
+  }
+  std::string TL(ArrayRef<ninja::Token> toks) {
+    if (toks.empty()) return ".";
+    std::string r;
+    for (size_t i = 0; i < toks.size(); i++) { if (i) r += ","; r += T(toks[i]); }
+    return r;
+  }
+public:
+  TraceActions(std::string& out, const char* base) : out(out), base(base) {}
+  void initialize(ninja::Parser*) override {}
+  void error(StringRef m, const ninja::Token& at) override { out += " x:" + H(m) + ":" + T(at); }
+  void actOnBeginManifest(StringRef name) override { out += " bm:" + H(name); }
+  void actOnEndManifest() override { out += " em"; }
+  void actOnBindingDecl(const ninja::Token& n, const ninja::Token& v) override { out += " b:" + T(n) + ":" + T(v); }
+  void actOnDefaultDecl(ArrayRef<ninja::Token> names) override { out += " d:" + TL(names); }
+  void actOnIncludeDecl(bool isInclude, const ninja::Token& p) override { out += (isInclude ? " i:" : " s:") + T(p); }
+  BuildResult actOnBeginBuildDecl(const ninja::Token& name, ArrayRef<ninja::Token> outs, ArrayRef<ninja::Token> ins,
+                                  unsigned nExp, unsigned nImp) override {
+    out += " B:" + T(name) + ":" + std::to_string(nExp) + ":" + std::to_string(nImp) + ":" + TL(outs) + ":" + TL(ins);
+    return &dummy;
+  }
+  void actOnBuildBindingDecl(BuildResult, const ninja::Token& n, const ninja::Token& v) override { out += " pb:" + T(n) + ":" + T(v); }
+  void actOnEndBuildDecl(BuildResult, const ninja::Token& st) override { out += " eb:" + T(st); }
+  PoolResult actOnBeginPoolDecl(const ninja::Token& n) override { out += " P:" + T(n); return &dummy; }
+  void actOnPoolBindingDecl(PoolResult, const ninja::Token& n, const ninja::Token& v) override { out += " pp:" + T(n) + ":" + T(v); }
+  void actOnEndPoolDecl(PoolResult, const ninja::Token& st) override { out += " ep:" + T(st); }
+  RuleResult actOnBeginRuleDecl(const ninja::Token& n) override { out += " R:" + T(n); return &dummy; }
+  void actOnRuleBindingDecl(RuleResult, const ninja::Token& n, const ninja::Token& v) override { out += " pr:" + T(n) + ":" + T(v); }
+  void actOnEndRuleDecl(RuleResult, const ninja::Token& st) override { out += " er:" + T(st); }
+};
+
+void mode_parse() {
+  std::string line;
+  while (std::getline(std::cin, line)) {
+    while (!line.empty() && (line.back() == '\r' || line.back() == ' ')) line.pop_back();
+    if (line.empty() || line.find(' ') != std::string::npos) { std::cout << "bad-op" << std::endl; continue; }
+    std::string data = vh::hexDecode(line);
+    alarm(20);
+    // exact-size heap buffer without terminator
+    char* mem = (char*)malloc(data.size() ? data.size() : 1);
+    memcpy(mem, data.data(), data.size());
+    std::string out = "ok";
+    {
+      TraceActions actions(out, mem);
+      ninja::Parser parser(StringRef(mem, data.size()), actions);
+      parser.parse();
+    }
+    free(mem);
+    alarm(0);
+    std::cout << out << std::endl;
+  }
+}
+
 void mode_decls() {
   std::string line;
   while (std::getline(std::cin, line)) {
@@ -238,6 +306,7 @@ int main(int argc, char** argv) {
   std::string mode = argv[1];
   if (mode == "c17decls") mode_decls();
   else if (mode == "c17load") mode_load();
+  else if (mode == "c17parse") mode_parse();
   else { fprintf(stderr, "unknown mode %s\n", argv[1]); return 2; }
   return 0;
 }
